@@ -86,6 +86,25 @@ impl OwnedEntry {
     }
 }
 
+/// Makes sure that a directory is registered, and listed exactly once in its
+/// parent directory (which is registered too if needed, up to the root).
+///
+/// Archives do not have to contain entries for directories.
+fn ensure_dir(dirs: &mut HashMap<SharedString, Vec<OwnedEntry>>, id: &str) {
+    if dirs.contains_key(id) {
+        return;
+    }
+    let id = SharedString::from(id);
+    dirs.insert(id.clone(), Vec::new());
+
+    if let Some(parent_id) = DirEntry::Directory(&id).parent_id() {
+        ensure_dir(dirs, parent_id);
+        if let Some(parent) = dirs.get_mut(parent_id) {
+            parent.push(OwnedEntry::Dir(id));
+        }
+    }
+}
+
 /// Register a file of an archive in maps.
 fn register_file(
     file: tar::Entry<'_, impl io::Read>,
@@ -134,22 +153,22 @@ fn register_file(
         let id = id_builder.join();
 
         // Register the file in the maps.
-        let entry = if file.header().entry_type().is_file() {
+        if file.header().entry_type().is_file() {
             let ext = crate::utils::extension_of(&path)?.into();
             let desc = FileDesc(id, ext);
 
             let start = file.raw_file_position();
             let size = file.size();
 
-            files.insert(desc.clone(), (start, size));
-            OwnedEntry::File(desc)
-        } else {
-            if !dirs.contains_key(&id) {
-                dirs.insert(id.clone(), Vec::new());
+            ensure_dir(dirs, &parent_id);
+            if files.insert(desc.clone(), (start, size)).is_none() {
+                if let Some(dir) = dirs.get_mut(&parent_id) {
+                    dir.push(OwnedEntry::File(desc));
+                }
             }
-            OwnedEntry::Dir(id)
-        };
-        dirs.entry(parent_id).or_default().push(entry);
+        } else {
+            ensure_dir(dirs, &id);
+        }
 
         Some(())
     })()
@@ -242,6 +261,9 @@ where
 
         let mut files = HashMap::new();
         let mut dirs = HashMap::new();
+
+        // The root always exists, even in an empty archive
+        ensure_dir(&mut dirs, "");
 
         for file in archive.entries_with_seek()? {
             register_file(file?, &mut files, &mut dirs, &mut id_builder)
